@@ -9,7 +9,9 @@ package absnfs
 import (
 	"bytes"
 	"encoding/binary"
+	"errors"
 	"io"
+	"math"
 	"os"
 	"path"
 	"strings"
@@ -46,11 +48,14 @@ func (h *NFSProcedureHandler) handleCreate(body io.Reader, reply *RPCReply, auth
 	newUID := authCtx.EffectiveUID
 	newGID := authCtx.EffectiveGID
 	var isExclusive bool
+	var setSize bool
+	var newSize uint64
 	if createHow == 0 || createHow == 1 {
 		sattr, err := decodeSattr3(body)
 		if err != nil {
 			return nfsErrorWithWcc(reply, GARBAGE_ARGS), nil
 		}
+		setSize, newSize = sattr.SetSize, sattr.Size
 		if sattr.SetMode {
 			mode = sattr.Mode
 		}
@@ -95,9 +100,25 @@ func (h *NFSProcedureHandler) handleCreate(body io.Reader, reply *RPCReply, auth
 	if err != nil {
 		// For EXCLUSIVE creates, if file already exists, return success
 		// (simplified idempotent behavior per RFC 1813 - full verifier comparison not implemented)
-		if isExclusive && os.IsExist(err) {
+		// UNCHECKED on an existing regular file succeeds without touching its
+		// data (unless the request explicitly sets size); GUARDED falls through
+		// to NFS3ERR_EXIST.
+		if (isExclusive || createHow == 0) && errors.Is(err, os.ErrExist) {
 			lookupPath := path.Join(node.path, name)
 			existingNode, lookupErr := h.server.handler.Lookup(lookupPath)
+			if lookupErr == nil && !isExclusive {
+				existingNode.mu.RLock()
+				regular := existingNode.attrs.Mode&os.ModeType == 0
+				existingNode.mu.RUnlock()
+				if !regular {
+					lookupErr = err
+				} else if setSize && newSize <= uint64(math.MaxInt64) {
+					if truncErr := existingNode.Truncate(int64(newSize)); truncErr == nil {
+						h.server.handler.attrCache.Invalidate(lookupPath)
+						existingNode, lookupErr = h.server.handler.Lookup(lookupPath)
+					}
+				}
+			}
 			if lookupErr == nil {
 				dirPostAttrs, _ := h.server.handler.GetAttr(node)
 				if dirPostAttrs == nil {
